@@ -180,6 +180,12 @@ def line_tscpar(case, wrap, grid0='case'):
                                               grid_str(g0), parts_str(case['pos'], case['w']))
 
 
+def line_getfield(case):
+    """the whole of get_field in the model: wrap (TSC) / pos + d (CIC, never wrapped), deposit, normalize_field"""
+    return 'getfield %s %d %s %s %s' % (case['kind'], case['shape'][0], rs(fr(case['box'])), rs(fr(case['off'])),
+                                       parts_str(case['pos'], case['w']))
+
+
 def parse_grid(s):
     if s.startswith('err '):
         return {'err': s[4:]}
@@ -286,7 +292,9 @@ def call_get_field(impl, case):
     except IndexError:
         return {'err': 'oob'}
     norm = fr(ddt(n ** 3 / len(posa)))
-    return {'grid': [(fr(v) + 1) / norm for v in f.ravel()], 'pos': [[fr(v) for v in p] for p in posa], 'norm': norm}
+    field = [fr(v) for v in f.ravel()]
+    return {'grid': [(v + 1) / norm for v in field], 'field': field, 'pos': [[fr(v) for v in p] for p in posa],
+            'norm': norm}
 
 
 # --------------------------------------------------------------------------- generators
@@ -590,7 +598,7 @@ def check_case(ctx, impl, case, plan):
     else:
         # get_field: TSC wraps in place and applies the offset in the kernel; CIC adds d to the positions itself
         if kind == 'tsc':
-            i = plan.ask(line_tscpar(case, True, grid0=None))
+            i = plan.ask(line_getfield(case))
             pre = call_scatter(impl, case, 'tsc_py', posw_l, grid0=None)
             parser = parse_tscpar
         else:
@@ -599,9 +607,9 @@ def check_case(ctx, impl, case, plan):
             overshoot = is_g2_overshoot(case, sh_l, off=0.0)
             if overshoot:
                 ctx.count('float-overshoot-on-2-cell-axis')
-            i = plan.ask(line_scatter(case, sh_l, off=0.0, grid0=None))
+            i = plan.ask(line_getfield(case))
             pre = call_scatter(impl, case, 'cic_py', sh_l, off=0.0, grid0=None)
-            parser = parse_grid
+            parser = parse_tscpar
         if 'err' not in pre:
             r = call_get_field(impl, case)
             results.append(('get_field', r, i, parser, expected))
@@ -653,10 +661,28 @@ def finish(ctx, case, results, tol, overshoot=False):
                     ctx.disagree('%s fault kind' % entry, case, m['err'], r['err'])
                 else:
                     ctx.count('fault-agreed:' + m['err'])
+            elif 'field' in r:
+                # get_field end to end: the model's answer is the normalised field  deposit * (n^3/N) - 1
+                ftol = tol * r['norm'] + Fr(8 * max(EPS[case['pdt']], EPS[case['ddt']]))
+                okf = len(r['field']) == len(m['grid']) and all(
+                    (abs(a - b) <= ftol * (1 + abs(b)) if case['stream'] == 'tol' else a == b)
+                    for a, b in zip(r['field'], m['grid']))
+                if not okf:
+                    ctx.disagree('get_field normalised field', case, brief(m['grid']),
+                                 {'first': first_diff(r['field'], m['grid']), 'field': brief(r['field'])})
+                # oracle (get_field_spec): field total = n^3 * (sum w / N) - n^3, exactly on the exact stream
+                if case['stream'] == 'exact':
+                    npart = len(case['pos'])
+                    sw = Fr(npart) if case['w'] is None else sum(fr(v) for v in case['w'])
+                    size = Fr(case['shape'][0]) ** 3
+                    if sum(r['field']) != size * sw / npart - size:
+                        ctx.fail('get_field: field total is not n^3 (sum w / N) - n^3', case, float(sum(r['field'])),
+                                 float(size * sw / npart - size), key='%s:get_field-total' % case['kind'])
             else:
                 if not close(case, r['grid'], m['grid'], tol):
                     ctx.disagree('%s grid' % entry, case, brief(m['grid']),
                                  {'first': first_diff(r['grid'], m['grid']), 'grid': brief(r['grid'])})
+            if 'err' not in m and 'err' not in r:
                 if 'pos' in r and 'pos' in m:
                     ptol = Fr(4 * EPS[case['pdt']]) * fr(abs(case['box']))
                     ok = len(r['pos']) == len(m['pos']) and all(
